@@ -61,3 +61,10 @@ class Contract:
 
 def contract(file, qual, **kw):
     return Contract(file, qual, **kw)
+
+
+CLASSES = {}      # class name -> {'file': relpath or None, 'fields': {name: type string}}
+
+
+def declare_class(name, file=None, fields=None):
+    CLASSES[name] = {'file': file, 'fields': dict(fields or {})}
